@@ -96,6 +96,9 @@ def handle (st : DState) : String → P (DState × String)
   | "cell" => do
     let s ← pStr; let sty ← pStr
     pure (st, encCell (mkCell M WC s sty))
+  | "dwidth" => do
+    let s ← pStr
+    pure (st, toString (displayWidth M WC Gen.C10.isPrintable s))
   | "write" => do
     let s ← pStr
     pure (st, encStr (safeWrite s))
@@ -116,7 +119,7 @@ def handle (st : DState) : String → P (DState × String)
     let pre0 ← pList pFrag; let preN ← pList pFrag
     let lines ← pList (pList pFrag)
     let cfg : CopyCfg := {
-      m := M, wc := WC, dflt := D0, xpos := xpos, ypos := ypos, width := width, height := height,
+      m := M, wc := WC, printable := Gen.C10.isPrintable, dflt := D0, xpos := xpos, ypos := ypos, width := width, height := height,
       wrap := wrap, hscroll := hscroll, align := align,
       pre := if hasPre then some (fun _ wc => if wc = 0 then pre0 else preN) else none }
     let r := copyBody cfg st.buf st.zwe lines vscroll vscroll2
